@@ -279,4 +279,586 @@ theorem userLoop_npu (c : Cfg) (ty : NType) (force rem : Bool) (e : Env) :
     · right
       cases (userStep c ty force rem e npu lns u).2.2 <;> simp [h]
 
+/-! ## delivery -/
+
+theorem timesOpen_eq (c : Cfg) (e : Env) : timesOpen c e = (!beforeBegin c e && !afterEnd c e) := by
+  unfold timesOpen beforeBegin afterEnd
+  cases c.tbegin <;> cases c.tend <;> simp
+
+theorem filteredEv_cases (ty : NType) (rem : Bool) :
+    (ty ≠ .recovery ∧ filteredEv ty rem = none) ∨ (ty = .recovery ∧ filteredEv ty rem = some ⟨.recovery, rem, false, []⟩) := by
+  unfold filteredEv
+  cases ty <;> simp
+
+/-- The event of a call, and the state it leaves, in the two shapes the checkers care about. -/
+theorem beginExec_split (c : Cfg) (s : St) (ty : NType) (force rem : Bool) (e : Env) :
+    ((beginExec c s ty force rem e).2 = filteredEv ty rem ∧ (beginExec c s ty force rem e).1.npu = s.npu ∧
+      (beginExec c s ty force rem e).1.lns = (pre s ty).lns) ∨
+    (gPeriod force e = false ∧ gBegin c ty force e = false ∧ gEnd c ty force e = false ∧ gType c ty force = false ∧
+      gState c ty force e = false ∧ beginExec c s ty force rem e = passedResult c s ty force rem e) := by
+  have hn : (pre s ty).npu = s.npu := by unfold pre; cases (ty == NType.recovery) <;> simp
+  rcases beginExec_cases c s ty force rem e with h | h | h | h | h | h
+  · left; rw [h.2]; exact ⟨rfl, hn, rfl⟩
+  · left; rw [h.2.2]; exact ⟨rfl, hn, rfl⟩
+  · left; rw [h.2.2.2]; exact ⟨rfl, hn, rfl⟩
+  · left; rw [h.2.2.2.2]; exact ⟨rfl, hn, rfl⟩
+  · left; rw [h.2.2.2.2.2]; exact ⟨rfl, hn, rfl⟩
+  · right; exact h
+
+theorem delivery_begin (c : Cfg) (k : OpKind) (e : Env) (ty : NType) (force rem : Bool)
+    (hforce : forceOf k e = force)
+    (hflags : force = false → (e.globalEnabled && e.ckEnabled) = true)
+    (hpaused : pausedFor k e = false) :
+    Pres (deliveryEv c k e) (fun _ _ => True) (fun _ => True) (beginStep c ty force rem e) := by
+  apply Pres_begin
+  intro g s _
+  rcases beginExec_split c s ty force rem e with ⟨h, _, _⟩ | ⟨h1, h2, h3, h4, h5, h⟩
+  · rw [h]
+    rcases filteredEv_cases ty rem with ⟨_, h'⟩ | ⟨_, h'⟩
+    · rw [h']; trivial
+    · rw [h']; intro _; simp [deliveryEv]
+  · rw [h]
+    simp only [passedResult]
+    intro _
+    refine ⟨?_, trivial⟩
+    have hu : ((userLoop c ty force rem e (book c (pre s ty) ty e).npu (book c (pre s ty) ty e).lns e.users).2.2).all
+        (userAdmits c e ty force) = true := by
+      rw [List.all_eq_true]
+      intro uid hm
+      obtain ⟨u, hu, h6, h7⟩ := userLoop_delivered_ok c ty force rem e _ _ _ _ hm
+      unfold userAdmits
+      rw [List.any_eq_true]
+      refine ⟨u, hu, ?_⟩
+      unfold userOk at h7
+      simp only [Bool.and_eq_true] at h7 ⊢
+      refine ⟨⟨by simp [h6], h7.1⟩, h7.2⟩
+    have ht := timesOpen_eq c e
+    simp only [gPeriod, gBegin, gEnd, gType, gState] at h1 h2 h3 h4 h5
+    simp only [deliveryEv, hforce, hpaused, hu]
+    cases hf : force
+    · have := hflags hf
+      subst hf
+      cases hp : (ty == NType.problem) <;> cases hb : beforeBegin c e <;> cases ha : afterEnd c e <;>
+        simp_all
+    · simp
+
+/-! ## recipients -/
+
+/-- Every user on `notified_problem_users` was sent a Problem since the last Recovery. -/
+def RecInv (ps : List Nat) (s : St) : Prop := ∀ x ∈ s.npu, x ∈ ps
+
+/-- The side condition of F-C03: every Recovery got past the notification-level filters. -/
+def RecP (ev : Event) : Prop := ev.ty = .recovery → ev.passed = true
+
+theorem pre_npu (s : St) (ty : NType) : (pre s ty).npu = s.npu := by
+  unfold pre; cases (ty == NType.recovery) <;> simp
+
+theorem recipients_begin (c : Cfg) (e : Env) (ty : NType) (force rem : Bool) :
+    Pres (recipientsEv e) RecInv RecP (beginStep c ty force rem e) := by
+  apply Pres_begin
+  intro ps s hi
+  rcases beginExec_split c s ty force rem e with ⟨h, hn, _⟩ | ⟨_, _, _, _, _, h⟩
+  · rw [h]
+    rcases filteredEv_cases ty rem with ⟨_, h'⟩ | ⟨_, h'⟩
+    · rw [h']; simp only; intro x hx; rw [hn] at hx; exact hi x hx
+    · rw [h']; simp only; intro hp; exact absurd (hp rfl) (by simp)
+  · rw [h]
+    simp only [passedResult]
+    intro _
+    have hb : (book c (pre s ty) ty e).npu = s.npu := by simp [book, pre_npu]
+    rw [hb]
+    generalize hl : (book c (pre s ty) ty e).lns = lns
+    have hchk : (ty = .recovery ∨ ty = .ack) →
+        (userLoop c ty force rem e s.npu lns e.users).2.2.all (fun uid => ps.contains uid || notSubscribed e uid) = true := by
+      intro hra
+      rw [List.all_eq_true]
+      intro uid hm
+      rcases userLoop_recipients c ty force rem e hra _ _ _ _ hm with h1 | ⟨u, hu, h1, h2⟩
+      · have : uid ∈ ps := hi uid (by simpa using h1)
+        simp [this]
+      · have : notSubscribed e uid = true := by
+          unfold notSubscribed; rw [List.any_eq_true]; exact ⟨u, hu, by simp [h1, h2]⟩
+        simp [this]
+    by_cases hrec : ty = .recovery
+    · subst hrec
+      have := hchk (Or.inl rfl)
+      refine ⟨by simp only [recipientsEv]; rw [this]; simp, ?_⟩
+      intro x hx; simp at hx
+    · by_cases hack : ty = .ack
+      · subst hack
+        have := hchk (Or.inr rfl)
+        refine ⟨by simp only [recipientsEv]; rw [this]; simp, ?_⟩
+        intro x hx
+        simp only [recipientsEv] at hx ⊢
+        have ho := (userLoop_other c .ack force rem e (by simp) e.users s.npu lns).1
+        simp at hx ⊢
+        rw [ho] at hx
+        exact hi x hx
+      · by_cases hprob : ty = .problem
+        · subst hprob
+          refine ⟨by simp [recipientsEv], ?_⟩
+          intro x hx
+          simp [recipientsEv] at hx ⊢
+          rcases userLoop_npu c .problem force rem e e.users s.npu lns x hx with h1 | h1
+          · exact Or.inr (hi x h1)
+          · exact Or.inl h1
+        · have h1 : (ty == NType.recovery) = false := by simpa using hrec
+          have h2 : (ty == NType.ack) = false := by simpa using hack
+          have h3 : (ty == NType.problem) = false := by simpa using hprob
+          refine ⟨by simp [recipientsEv, h1, h2], ?_⟩
+          intro x hx
+          simp only [recipientsEv, h1, h3, Bool.false_and, Bool.false_eq_true, if_false] at hx ⊢
+          rw [(userLoop_other c ty force rem e hprob e.users s.npu lns).1] at hx
+          exact hi x hx
+
+/-! ## noDup -/
+
+/-- What the bookkeeping knows about a user's last Problem state is what the code's dictionary reads. -/
+def DupRel (ls lns : Nat → Option Nat) : Prop := ∀ u st, ls u = some st → lnsGet lns u = st
+def DupInv (ls : Nat → Option Nat) (s : St) : Prop := DupRel ls s.lns
+
+theorem pre_lns_of_ne (s : St) (ty : NType) (h : ty ≠ .recovery) : pre s ty = s := by
+  unfold pre; have : (ty == NType.recovery) = false := by simpa using h
+  simp [this]
+
+theorem noDup_loop (c : Cfg) (force rem : Bool) (e : Env) :
+    ∀ (us : List UEnv) (npu : List Nat) (lns ls : Nat → Option Nat), DupRel ls lns →
+      (noDupUsers (!rem && !e.volatile) e.state ls (userLoop c .problem force rem e npu lns us).2.2).1 = none ∧
+      DupRel (noDupUsers (!rem && !e.volatile) e.state ls (userLoop c .problem force rem e npu lns us).2.2).2
+        (userLoop c .problem force rem e npu lns us).2.1 := by
+  intro us
+  induction us with
+  | nil => intro npu lns ls h; simp only [userLoop, noDupUsers]; exact ⟨trivial, h⟩
+  | cons u rest ih =>
+    intro npu lns ls h
+    simp only [userLoop]
+    cases hf : (userStep c .problem force rem e npu lns u).2.2
+    · simp only [Bool.false_eq_true, if_false]
+      have hs : (userStep c .problem force rem e npu lns u).2.1 = lns := by
+        rw [userStep_flag] at hf
+        unfold userStep; simp [hf]
+      rw [hs]
+      exact ih _ lns ls h
+    · simp only [if_true, noDupUsers]
+      have hf' := hf
+      rw [userStep_flag] at hf'
+      simp only [Bool.and_eq_true, Bool.not_eq_true'] at hf'
+      obtain ⟨⟨_, _⟩, hd⟩ := hf'
+      have hchk : ((!rem && !e.volatile) && ls u.id == some e.state) = false := by
+        cases hc : (!rem && !e.volatile)
+        · simp
+        · cases hl : (ls u.id == some e.state)
+          · simp
+          · have := h u.id e.state (by simpa using hl)
+            unfold isDup at hd
+            simp only [Bool.and_eq_true, Bool.not_eq_true'] at hc
+            simp [hc.1, hc.2, this] at hd
+      rw [hchk]
+      simp only [Bool.false_eq_true, if_false]
+      have hs : (userStep c .problem force rem e npu lns u).2.1 =
+          (if e.state != lnsGet lns u.id then lnsSet lns u.id e.state else lns) := by
+        rw [userStep_flag] at hf
+        unfold userStep; simp [hf]
+      rw [hs]
+      apply ih
+      intro v st hv
+      unfold lnsSet at hv
+      by_cases hvu : v = u.id
+      · subst hvu
+        simp at hv
+        subst hv
+        cases hne : (e.state != lnsGet lns u.id)
+        · simp at hne; simp [hne]
+        · simp [lnsSet, lnsGet]
+      · have : (v == u.id) = false := by simpa using hvu
+        simp only [this, Bool.false_eq_true, if_false] at hv
+        have := h v st hv
+        cases hne : (e.state != lnsGet lns u.id)
+        · simpa using this
+        · simp only [if_true]
+          unfold lnsGet lnsSet at *
+          simp [hvu, this]
+
+theorem noDup_begin (c : Cfg) (e : Env) (ty : NType) (force rem : Bool) :
+    Pres (noDupEv e) DupInv (fun _ => True) (beginStep c ty force rem e) := by
+  apply Pres_begin
+  intro ls s hi
+  rcases beginExec_split c s ty force rem e with ⟨h, _, hl⟩ | ⟨_, _, _, _, _, h⟩
+  · rw [h]
+    rcases filteredEv_cases ty rem with ⟨hne, h'⟩ | ⟨_, h'⟩
+    · rw [h']; simp only; unfold DupInv; rw [hl, pre_lns_of_ne s ty hne]; exact hi
+    · rw [h']; simp only; intro _
+      refine ⟨by simp [noDupEv], ?_⟩
+      intro u st hu; simp [noDupEv] at hu
+  · rw [h]
+    simp only [passedResult]
+    intro _
+    by_cases hrec : ty = .recovery
+    · subst hrec
+      refine ⟨by simp [noDupEv], ?_⟩
+      intro u st hu; simp [noDupEv] at hu
+    · have h1 : (ty == NType.recovery) = false := by simpa using hrec
+      have hb : (book c (pre s ty) ty e).lns = s.lns := by simp [book, pre_lns_of_ne s ty hrec]
+      rw [hb]
+      by_cases hprob : ty = .problem
+      · subst hprob
+        obtain ⟨a, b⟩ := noDup_loop c force rem e e.users (book c (pre s .problem) .problem e).npu s.lns ls hi
+        simp only [noDupEv]
+        exact ⟨by simpa using a, by simpa [DupInv] using b⟩
+      · have h3 : (ty == NType.problem) = false := by simpa using hprob
+        simp only [noDupEv, h1, h3, Bool.false_and, Bool.false_eq_true, if_false]
+        refine ⟨trivial, ?_⟩
+        unfold DupInv
+        simp only
+        rw [(userLoop_other c ty force rem e hprob e.users _ s.lns).2]
+        exact hi
+
+/-! ## reminder -/
+
+/-- Relation between the reminder bookkeeping and the scheduling attributes, inside an operation with
+    environment `e`: the remembered Problem was sent under the current `last_hard_state_change`, not in the
+    future, not before `times.begin`; `next_notification` lies at least `interval` after it; and while
+    nothing re-armed the object (`quiet`) `no_more_notifications` is set if `interval ≤ 0`. -/
+def RemInvE (c : Cfg) (e : Env) (g : RemSt) (s : St) : Prop :=
+  ∀ t1 l, g.lastProb = some (t1, l) →
+    l = e.lhsc ∧ t1 ≤ e.now ∧ (∀ b, c.tbegin = some b → 0 ≤ b → l + b ≤ t1) ∧
+    (0 < c.interval → t1 + c.interval ≤ s.next) ∧ (g.quiet = true → c.interval ≤ 0 → s.noMore = true)
+
+theorem RemInvE_mono {c : Cfg} {e : Env} {g g' : RemSt} {s s' : St} (hi : RemInvE c e g s)
+    (hl : g'.lastProb = g.lastProb) (hq : g'.quiet = true → g.quiet = true)
+    (hn : 0 < c.interval → s.next ≤ s'.next) (hm : g'.quiet = true → s.noMore = true → s'.noMore = true) :
+    RemInvE c e g' s' := by
+  intro t1 l h
+  rw [hl] at h
+  obtain ⟨a, b, c', d, f⟩ := hi t1 l h
+  refine ⟨a, b, c', ?_, ?_⟩
+  · intro hpos; have := d hpos; have := hn hpos; omega
+  · intro hq' hint; exact hm hq' (f (hq hq') hint)
+
+theorem pre_next (s : St) (ty : NType) : (pre s ty).next = s.next ∧ (pre s ty).noMore = s.noMore := by
+  unfold pre; cases (ty == NType.recovery) <;> simp
+
+theorem reminder_begin_core (c : Cfg) (k : OpKind) (e : Env) (ty : NType) (force rem : Bool)
+    (hforce : forceOf k e = force) (g : RemSt) (s : St) (hi : RemInvE c e g s)
+    (hrem : rem = true → k = .tick ∧ ty = .problem ∧ remCondOk e = true ∧ remSpacingOk c e g = true ∧
+      remInterval0Ok c g = true) :
+    (match (beginExec c s ty force rem e).2 with
+     | none => RemInvE c e g (beginExec c s ty force rem e).1
+     | some ev => (reminderEv c k e g ev).1 = none ∧ RemInvE c e (reminderEv c k e g ev).2 (beginExec c s ty force rem e).1) := by
+  obtain ⟨pn, pm⟩ := pre_next s ty
+  -- a filtered Recovery is never a reminder
+  have hfilt : ∀ s' : St, (0 < c.interval → s.next ≤ s'.next) → (ty ≠ .recovery → s.noMore = true → s'.noMore = true) →
+      (match filteredEv ty rem with
+       | none => RemInvE c e g s'
+       | some ev => (reminderEv c k e g ev).1 = none ∧ RemInvE c e (reminderEv c k e g ev).2 s') := by
+    intro s' hn hm
+    rcases filteredEv_cases ty rem with ⟨hne, h'⟩ | ⟨hre, h'⟩
+    · rw [h']; exact RemInvE_mono hi rfl id hn (fun _ => hm hne)
+    · rw [h']
+      have hr : rem = false := by
+        cases rem
+        · rfl
+        · have := (hrem rfl).2.1; rw [hre] at this; cases this
+      subst hr
+      refine ⟨by simp [reminderEv], ?_⟩
+      exact RemInvE_mono hi (by simp [reminderEv]) (by simp [reminderEv]) hn (by simp [reminderEv])
+  rcases beginExec_cases c s ty force rem e with h | h | h | h | h | h
+  · rw [h.2]; exact hfilt _ (by simp [pn]) (by simp [pm])
+  · -- before times.begin: impossible while a Problem sent under this hard state is remembered
+    obtain ⟨_, hb, h⟩ := h
+    rw [h]
+    simp only [gBegin, Bool.and_eq_true, Bool.not_eq_true', beq_iff_eq] at hb
+    obtain ⟨⟨_, hty⟩, hbb⟩ := hb
+    subst hty
+    have hnone : g.lastProb = none := by
+      rcases hl : g.lastProb with _ | ⟨t1, l⟩
+      · rfl
+      · obtain ⟨a, b, c', _, _⟩ := hi t1 l hl
+        unfold beforeBegin at hbb
+        rcases hc : c.tbegin with _ | bb
+        · simp [hc] at hbb
+        · simp only [hc, Bool.and_eq_true, decide_eq_true_eq] at hbb
+          have := c' bb hc hbb.1
+          omega
+    simp only [filteredEv]
+    intro t1 l hl; rw [hnone] at hl; cases hl
+  · rw [h.2.2.2]; exact hfilt _ (by simp [pn]) (by simp [pm])
+  · rw [h.2.2.2.2]
+    apply hfilt _ (by simp [pn])
+    intro hne
+    have : (ty == NType.recovery) = false := by simpa using hne
+    simp [this, pm]
+  · rw [h.2.2.2.2.2]; exact hfilt _ (by simp [pn]) (by simp [pm])
+  · obtain ⟨_, hb, _, _, _, h⟩ := h
+    rw [h]
+    simp only [passedResult]
+    have hchk : (reminderEv c k e g ⟨ty, rem, true, (userLoop c ty force rem e (book c (pre s ty) ty e).npu
+        (book c (pre s ty) ty e).lns e.users).2.2⟩).1 = none := by
+      cases hr : rem
+      · simp [reminderEv]
+      · obtain ⟨a1, a2, a3, a4, a5⟩ := hrem hr
+        subst a1; subst a2
+        simp [reminderEv, a3, a4, a5]
+    refine ⟨hchk, ?_⟩
+    by_cases hprob : ty = .problem
+    · subst hprob
+      cases hf : force
+      · -- unforced Problem: becomes the remembered one
+        subst hf
+        intro t1 l hl
+        simp only [reminderEv, hforce, Bool.not_true, Bool.false_eq_true, if_false, beq_self_eq_true, if_true,
+          Option.some.injEq, Prod.mk.injEq] at hl
+        obtain ⟨h1, h2⟩ := hl
+        subst h1; subst h2
+        refine ⟨rfl, Int.le_refl _, ?_, ?_, ?_⟩
+        · intro b hbs hb0
+          simp only [gBegin, Bool.not_false, beq_self_eq_true, Bool.true_and] at hb
+          unfold beforeBegin at hb
+          simp only [hbs, Bool.and_eq_false_iff, decide_eq_false_iff_not] at hb
+          rcases hb with hb | hb <;> omega
+        · intro hpos
+          simp [book, hpos]
+        · intro _ hint
+          simp [book, hint]
+      · subst hf
+        have hg : (reminderEv c k e g ⟨.problem, rem, true, (userLoop c .problem true rem e (book c (pre s .problem) .problem e).npu
+            (book c (pre s .problem) .problem e).lns e.users).2.2⟩).2 = g := by
+          simp [reminderEv, hforce]
+        rw [hg]
+        intro t1 l hl
+        obtain ⟨a, b, c', d, f⟩ := hi t1 l hl
+        refine ⟨a, b, c', ?_, ?_⟩
+        · intro hpos; simp [book, hpos]; omega
+        · intro _ hint; simp [book, hint]
+    · have h3 : (ty == NType.problem) = false := by simpa using hprob
+      by_cases hcus : ty = .custom
+      · subst hcus
+        apply RemInvE_mono hi
+        · simp [reminderEv]
+        · simp [reminderEv]
+        · simp [book, pn]
+        · simp [book, pm]
+      · have h4 : (ty == NType.custom) = false := by simpa using hcus
+        apply RemInvE_mono hi
+        · simp [reminderEv, h3, h4]
+        · simp [reminderEv, h3, h4]
+        · simp [book, pn, h3]
+        · simp [reminderEv, h3, h4]
+
+/-! ## Operations -/
+
+theorem Pres_send {G : Type} {f : G → Event → Option Clause × G} {Inv : G → St → Prop} {P : Event → Prop}
+    (c : Cfg) (ty : NType) (e : Env)
+    (hb : sendBlocked e = false → Pres f Inv P (beginStep c ty e.force false e)) :
+    Pres f Inv P (fun s => sendStep c s ty e) := by
+  intro g s hi hp
+  simp only [sendStep] at hp ⊢
+  cases hbl : sendBlocked e
+  · simp only [hbl, Bool.false_eq_true, if_false] at hp ⊢
+    exact hb hbl g s hi hp
+  · simp only [if_true]; exact ⟨rfl, hi⟩
+
+theorem Pres_reminderStep {G : Type} {f : G → Event → Option Clause × G} {Inv : G → St → Prop} {P : Event → Prop}
+    (c : Cfg) (e : Env) (hnext : ∀ g s n, Inv g s → Inv g { s with next := n })
+    (hb : Pres f Inv P (beginStep c .problem false true e)) : Pres f Inv P (reminderStep c e) := by
+  intro g s hi hp
+  simp only [reminderStep] at hp ⊢
+  cases hd : reminderDue c s e
+  · simp only [Bool.false_eq_true, if_false]; exact ⟨rfl, hi⟩
+  · simp only [hd, if_true] at hp ⊢
+    cases ha : reminderAllowed { s with next := e.now + c.interval } e
+    · simp only [Bool.false_eq_true, if_false]; exact ⟨rfl, hnext g s _ hi⟩
+    · simp only [ha, if_true] at hp ⊢
+      exact hb g _ (hnext g s _ hi) hp
+
+theorem Pres_tick {G : Type} {f : G → Event → Option Clause × G} {Inv : G → St → Prop} {P : Event → Prop}
+    (c : Cfg) (e : Env)
+    (hsup : ∀ g s sup, Inv g s → Inv g { s with sup := sup })
+    (hb : tickSkipped e = false → ∀ ty, Pres f Inv P (beginStep c ty false false e))
+    (hr : tickSkipped e = false → Pres f Inv P (reminderStep c e)) :
+    Pres f Inv P (fun s => tickStep c s e) := by
+  intro g s hi hp
+  simp only [tickStep] at hp ⊢
+  cases hs : tickSkipped e
+  · simp only [hs, Bool.false_eq_true, if_false] at hp ⊢
+    exact Pres_seq (Pres_supStep c e hsup (hb hs)) (hr hs) g s hi hp
+  · simp only [if_true]; exact ⟨rfl, hi⟩
+
+/-- Side condition on a whole observed operation. -/
+def allEv (P : Event → Prop) (o : Obs) : Prop := ∀ ev ∈ o.events, P ev
+
+/-! ### the four checkers, one operation -/
+
+theorem delivery_op (c : Cfg) (g : Unit) (s : St) (op : Op) :
+    (deliveryObs c g (applyOp c s op).2).1 = none := by
+  cases op with
+  | send ty e =>
+    refine (Pres_send (f := deliveryEv c .send e) (Inv := fun _ _ => True) (P := fun _ => True) c ty e ?_ g s trivial
+      (fun _ _ => trivial)).1
+    intro hbl
+    apply delivery_begin c .send e ty e.force false
+    · simp [forceOf]
+    · intro hf; simp [sendBlocked, hf] at hbl; simp [hbl.1]
+    · simp [sendBlocked] at hbl; simp [pausedFor, hbl.2]
+  | tick e =>
+    refine (Pres_tick (f := deliveryEv c .tick e) (Inv := fun _ _ => True) (P := fun _ => True) c e
+      (fun _ _ _ _ => trivial) ?_ ?_ g s trivial (fun _ _ => trivial)).1
+    · intro hs ty
+      apply delivery_begin c .tick e ty false false
+      · simp [forceOf]
+      · intro _; simp [tickSkipped] at hs; simp [hs.2]
+      · simp [tickSkipped] at hs; simp [pausedFor]; intro hp; exact hs.1 hp
+    · intro hs
+      apply Pres_reminderStep c e (fun _ _ _ _ => trivial)
+      apply delivery_begin c .tick e .problem false true
+      · simp [forceOf]
+      · intro _; simp [tickSkipped] at hs; simp [hs.2]
+      · simp [tickSkipped] at hs; simp [pausedFor]; intro hp; exact hs.1 hp
+
+theorem recipients_op (c : Cfg) (ps : List Nat) (s : St) (op : Op) (hi : RecInv ps s)
+    (hp : allEv RecP (applyOp c s op).2) :
+    (recipientsObs ps (applyOp c s op).2).1 = none ∧ RecInv (recipientsObs ps (applyOp c s op).2).2 (applyOp c s op).1 := by
+  have hsup : ∀ (g : List Nat) (s : St) (sup : Sup), RecInv g s → RecInv g { s with sup := sup } := fun _ _ _ h => h
+  have hnext : ∀ (g : List Nat) (s : St) (n : Int), RecInv g s → RecInv g { s with next := n } := fun _ _ _ h => h
+  cases op with
+  | send ty e =>
+    exact Pres_send c ty e (fun _ => recipients_begin c e ty e.force false) ps s hi hp
+  | tick e =>
+    exact Pres_tick c e hsup (fun _ ty => recipients_begin c e ty false false)
+      (fun _ => Pres_reminderStep c e hnext (recipients_begin c e .problem false true)) ps s hi hp
+
+theorem noDup_op (c : Cfg) (ls : Nat → Option Nat) (s : St) (op : Op) (hi : DupInv ls s) :
+    (noDupObs ls (applyOp c s op).2).1 = none ∧ DupInv (noDupObs ls (applyOp c s op).2).2 (applyOp c s op).1 := by
+  have hsup : ∀ (g : Nat → Option Nat) (s : St) (sup : Sup), DupInv g s → DupInv g { s with sup := sup } := fun _ _ _ h => h
+  have hnext : ∀ (g : Nat → Option Nat) (s : St) (n : Int), DupInv g s → DupInv g { s with next := n } := fun _ _ _ h => h
+  cases op with
+  | send ty e =>
+    exact Pres_send c ty e (fun _ => noDup_begin c e ty e.force false) ls s hi (fun _ _ => trivial)
+  | tick e =>
+    exact Pres_tick c e hsup (fun _ ty => noDup_begin c e ty false false)
+      (fun _ => Pres_reminderStep c e hnext (noDup_begin c e .problem false true)) ls s hi (fun _ _ => trivial)
+
+/-! ### reminder, one operation -/
+
+/-- The relation between operations (no environment at hand). -/
+def RemInv (c : Cfg) (g : RemSt) (s : St) : Prop :=
+  ∀ t1 l, g.lastProb = some (t1, l) →
+    (∀ b, c.tbegin = some b → 0 ≤ b → l + b ≤ t1) ∧
+    (0 < c.interval → t1 + c.interval ≤ s.next) ∧ (g.quiet = true → c.interval ≤ 0 → s.noMore = true)
+
+theorem RemInv_validate (c : Cfg) (e : Env) (g : RemSt) (s : St) (h : RemInv c g s) :
+    RemInvE c e (remValidate e g) s := by
+  intro t1 l hl
+  unfold remValidate at hl
+  rcases hg : g.lastProb with _ | ⟨t, l'⟩
+  · simp [hg] at hl
+  · simp only [hg] at hl
+    cases hv : (l' == e.lhsc && decide (t ≤ e.now))
+    · simp [hv] at hl
+    · simp only [hv, if_true] at hl
+      rw [hg] at hl
+      simp only [Option.some.injEq, Prod.mk.injEq] at hl
+      obtain ⟨h1, h2⟩ := hl
+      subst h1; subst h2
+      simp only [Bool.and_eq_true, beq_iff_eq, decide_eq_true_eq] at hv
+      obtain ⟨a, b, d⟩ := h t l' hg
+      refine ⟨hv.1, hv.2, a, b, ?_⟩
+      simpa [remValidate, hg, hv.1, hv.2] using d
+
+theorem RemInvE_forget (c : Cfg) (e : Env) (g : RemSt) (s : St) (h : RemInvE c e g s) : RemInv c g s := by
+  intro t1 l hl
+  obtain ⟨_, _, a, b, d⟩ := h t1 l hl
+  exact ⟨a, b, d⟩
+
+theorem reminder_begin (c : Cfg) (k : OpKind) (e : Env) (ty : NType) (force : Bool) (hforce : forceOf k e = force) :
+    Pres (reminderEv c k e) (RemInvE c e) (fun _ => True) (beginStep c ty force false e) := by
+  apply Pres_begin
+  intro g s hi
+  have := reminder_begin_core c k e ty force false hforce g s hi (by simp)
+  rcases hq : (beginExec c s ty force false e).2 with _ | ev
+  · rw [hq] at this; exact this
+  · rw [hq] at this; intro _; exact this
+
+theorem reminder_reminderStep (c : Cfg) (e : Env) :
+    Pres (reminderEv c .tick e) (RemInvE c e) (fun _ => True) (reminderStep c e) := by
+  intro g s hi _
+  simp only [reminderStep]
+  cases hd : reminderDue c s e
+  · simp only [Bool.false_eq_true, if_false]; exact ⟨rfl, hi⟩
+  · simp only [if_true]
+    have hi1 : RemInvE c e g { s with next := e.now + c.interval } := by
+      intro t1 l hl
+      obtain ⟨a, b, c', d, f⟩ := hi t1 l hl
+      exact ⟨a, b, c', by intro _; simp; omega, f⟩
+    cases ha : reminderAllowed { s with next := e.now + c.interval } e
+    · simp only [Bool.false_eq_true, if_false]; exact ⟨rfl, hi1⟩
+    · simp only [if_true]
+      simp only [reminderDue, Bool.and_eq_true, Bool.not_eq_true', decide_eq_false_iff_not, Bool.and_eq_false_iff,
+        decide_eq_true_eq] at hd
+      obtain ⟨hd1, hd2⟩ := hd
+      have hcond : remCondOk e = true := by
+        simp only [reminderAllowed, Bool.and_eq_true, Bool.not_eq_true', Bool.or_eq_false_iff] at ha
+        simp only [remCondOk, Bool.and_eq_true, Bool.not_eq_true']
+        obtain ⟨⟨⟨a1, a2⟩, _⟩, ⟨⟨a4, a5⟩, a6⟩, a7⟩ := ha
+        simp only [Bool.not_eq_false'] at a4
+        exact ⟨⟨⟨⟨⟨a1, a2⟩, a4⟩, a5⟩, a6⟩, a7⟩
+      have hsp : remSpacingOk c e g = true := by
+        unfold remSpacingOk
+        rcases hl : g.lastProb with _ | ⟨t1, l⟩
+        · rfl
+        · obtain ⟨_, _, _, d, _⟩ := hi t1 l hl
+          simp only [Bool.or_eq_true, decide_eq_true_eq]
+          by_cases hpos : 0 < c.interval
+          · right; have := d hpos; omega
+          · left; omega
+      have hi0 : remInterval0Ok c g = true := by
+        unfold remInterval0Ok
+        cases hq : g.quiet
+        · simp
+        · rcases hl : g.lastProb with _ | ⟨t1, l⟩
+          · simp
+          · obtain ⟨_, _, _, _, f⟩ := hi t1 l hl
+            by_cases hint : c.interval ≤ 0
+            · have := f hq hint
+              rcases hd1 with h | h
+              · exact absurd hint h
+              · rw [this] at h; cases h
+            · simp [hint]
+      have := reminder_begin_core c .tick e .problem false true (by simp [forceOf]) g _ hi1
+        (fun _ => ⟨rfl, rfl, hcond, hsp, hi0⟩)
+      rw [evFold_opt]
+      rcases hq : (beginExec c { s with next := e.now + c.interval } .problem false true e).2 with _ | ev
+      · rw [hq] at this; exact ⟨rfl, this⟩
+      · rw [hq] at this; exact this
+
+theorem reminder_op (c : Cfg) (g : RemSt) (s : St) (op : Op) (hi : RemInv c g s) :
+    (reminderObs c g (applyOp c s op).2).1 = none ∧ RemInv c (reminderObs c g (applyOp c s op).2).2 (applyOp c s op).1 := by
+  cases op with
+  | send ty e =>
+    have := Pres_send (f := reminderEv c .send e) c ty e (fun _ => reminder_begin c .send e ty e.force (by simp [forceOf]))
+      (remValidate e g) s (RemInv_validate c e g s hi) (fun _ _ => trivial)
+    exact ⟨this.1, RemInvE_forget c e _ _ this.2⟩
+  | tick e =>
+    have hsup : ∀ (g : RemSt) (s : St) (sup : Sup), RemInvE c e g s → RemInvE c e g { s with sup := sup } := fun _ _ _ h => h
+    have := Pres_tick (f := reminderEv c .tick e) c e hsup
+      (fun _ ty => reminder_begin c .tick e ty false (by simp [forceOf])) (fun _ => reminder_reminderStep c e)
+      (remValidate e g) s (RemInv_validate c e g s hi) (fun _ _ => trivial)
+    exact ⟨this.1, RemInvE_forget c e _ _ this.2⟩
+
+/-- If the fold accepts a list of events, the checker accepted each of them in some bookkeeping state. -/
+theorem evFold_none_mem {G : Type} (f : G → Event → Option Clause × G) :
+    ∀ (evs : List Event) (g : G), (evFold f g evs).1 = none → ∀ ev ∈ evs, ∃ g', (f g' ev).1 = none := by
+  intro evs
+  induction evs with
+  | nil => intro g _ ev h; cases h
+  | cons a rest ih =>
+    intro g h ev hm
+    simp only [evFold] at h
+    rcases hq : f g a with ⟨_ | cl, g1⟩
+    · rw [hq] at h
+      rcases List.mem_cons.mp hm with hm | hm
+      · subst hm; exact ⟨g, by rw [hq]⟩
+      · exact ih g1 h ev hm
+    · rw [hq] at h; cases h
+
 end Icinga.C03
